@@ -392,7 +392,10 @@ impl Gen {
     }
     fn f_nil(&mut self) {
         let g = self.graph();
-        match self.r.below(3) {
+        match self.r.below(6) {
+            3 => { self.shape("nil-as-predicate"); let s = self.subject(); let o = self.simple_obj(); self.add(&g, s, rdf("nil"), o); }
+            4 => { self.shape("nil-as-datatype"); let s = self.subject(); let p = self.pred(); self.add(&g, s, p, T::Lit("x".into(), format!("{RDF}nil"))); }
+            5 => { self.shape("nil-as-graph-name"); let s = self.subject(); let p = self.pred(); let o = self.simple_obj(); self.add(&Some(rdf("nil")), s, p, o); }
             0 => { self.shape("nil-as-subject"); let o = self.simple_obj(); let p = self.pred(); self.add(&g, rdf("nil"), p, o); }
             1 => { self.shape("nil-as-object"); let s = self.subject(); let p = self.pred(); self.add(&g, s, p, rdf("nil")); }
             _ => { self.shape("nil-as-subject-and-object"); self.add(&g, rdf("nil"), ex("p"), rdf("nil")); }
@@ -440,7 +443,7 @@ fn gen_prefixes(r: &mut Rng) -> Vec<(String, String)> {
     }
 }
 fn gen_indent(r: &mut Rng) -> String {
-    if r.chance(1, 2) { "  ".into() } else { r.ps(&["", " ", "\t", "    ", "\n", " \t ", "\r\n", "\r", "\t\t"]).to_string() }
+    if r.chance(1, 2) { "  ".into() } else { r.ps(&["", " ", "\t", "    ", "\n", " \t ", "\r\n", "\r", "\t\t", "\u{c}", "\u{a0}", "\u{2003}"]).to_string() }
 }
 
 fn gen_shape_case(r: Rng) -> Case {
